@@ -15,7 +15,7 @@ from checks import codech_util as cu
 
 def run(chk):
     cu.simple_check(
-        chk, "C01", "c01", ["release", "debug"], kinds=[],
+        chk, "C01", "c01", ["release", "debug"], kinds=["struct"],
         rule="one evaluation = one encode of a generated PCM signal under one configuration through one writer front-end followed by decodes through 2-6 reader front-ends and comparison with the PCM; all are distinct (length x shape x configuration x front-end) and non-trivial (at least one audio frame encoded and decoded)",
         assumptions=[
             "the searcher samples the option/PCM space (all lengths 1..70 and every bits-per-sample exhaustively, the rest by sweeps and random draws); the universal statement rests on the Coq theorems of the codec model",
